@@ -61,8 +61,38 @@ def genSparseCase (idx : Nat) : Gen Case := do
   pure { id := s!"C14-sp-{idx}", cls := "good", kind := "eval", stratum := s!"sparse/{op}",
          model := "!panic", spec := "!panic", payload := [src] }
 
+/-- an intermediate result used twice: `let c = concat([x, y]); [concat([c, z1]), concat([c, z2]), c]`
+(the two uses must not disturb each other or `c`) -/
+def genReuseCase (idx : Nat) : Gen Case := do
+  let k ← genKind
+  let x ← genXs 4 3
+  let y ← genXs 3 3
+  let z1 ← genXs 2 3
+  let z2 ← genXs 2 3
+  let op ← pick ["concat", "repeat", "sub", "trim"]
+  let c := x ++ y
+  let (mid, u1, u2, r1, r2) : String × String × String × List Nat × List Nat :=
+    match op with
+    | "repeat" =>
+      (s!"//seq.concat({seqsSrc k [x, y]})", s!"//seq.concat([c, {seqSrc k z1}])", s!"//seq.concat([//seq.repeat(2, c), {seqSrc k z2}])",
+       c ++ z1, c ++ c ++ z2)
+    | "sub" =>
+      (s!"//seq.concat({seqsSrc k [x, y]})", s!"//seq.sub({seqSrc k [0]}, {seqSrc k z1}, c)", s!"//seq.concat([c, {seqSrc k z2}])",
+       Spec.sub [0] z1 c, c ++ z2)
+    | "trim" =>
+      (s!"//seq.concat({seqsSrc k [x, y]})", s!"//seq.concat([//seq.trim_suffix({seqSrc k y}, c), {seqSrc k z1}])", s!"//seq.concat([c, {seqSrc k z2}])",
+       Spec.trimSuffix y c ++ z1, c ++ z2)
+    | _ =>
+      (s!"//seq.concat({seqsSrc k [x, y]})", s!"//seq.concat([c, {seqSrc k z1}])", s!"//seq.concat([c, {seqSrc k z2}])", c ++ z1, c ++ z2)
+  -- kind B cannot be repeated (KF-seq-bytes-repeat); an empty first element makes concat dispatch on the next one
+  let cls := if k = .B && op == "repeat" && !c.isEmpty then "KF-seq-bytes-repeat" else "good"
+  let expect := (V.mkArr [seqV k r1, seqV k r2, seqV k c]).canon
+  pure { id := s!"C14-re-{idx}", cls := cls, kind := "eval", stratum := s!"reuse/{op}/{kindName k}",
+         model := expect, spec := expect, payload := [s!"let c = {mid}; [{u1}, {u2}, c]"] }
+
 def genCase (idx : Nat) (big : Bool) : Gen Case := do
   if (← chance 1 16) then return (← genSparseCase idx)
+  if (← chance 1 10) then return (← genReuseCase idx)
   let op ← pick ops
   let alpha ← pick [2, 2, 3]
   let maxLen := if big then 9 else 6
